@@ -11,6 +11,7 @@ package http1
 
 import (
 	"bytes"
+	"errors"
 	"fmt"
 	"io"
 	"strings"
@@ -128,6 +129,9 @@ func c23Check(tb ev.TB, rec *ev.Rec, c c23Case) bool {
 
 	if pv != nil {
 		return rec.Fail(tb, "panic", w, "bfe panicked decoding %s: %v", clip(c.Blob, 80), pv)
+	}
+	if errors.Is(err, errBodyExceedsInput) || errors.Is(err, errReadNoProgress) {
+		return rec.Fail(tb, "body-reader-runaway", w, "decoding %s: %v (body so far %s)", clip(c.Blob, 120), err, clip(body, 60))
 	}
 	if c.Want != nil {
 		// encoder output must be plain RFC 7230 chunked data carrying exactly the body
@@ -500,6 +504,19 @@ func TestC23(t *testing.T) {
 			for _, mode := range []string{"request", "response"} {
 				c23Check(t, rec, c23Case{Mode: mode, Blob: []byte(blob), Tail: true, Class: "sweep-digits"})
 			}
+		}
+	}
+	// deterministic sweep: every non-hex byte as a one-character chunk-size, with data
+	// lengths a sloppy digit mapping could produce ('g' -> 16, ':' -> 10, '@' -> 9 ...)
+	for b := 0; b < 256; b++ {
+		if isHex(byte(b)) || b == '\n' {
+			continue
+		}
+		for _, l := range []int{0, 1, 9, 10, 15, 16, 17, 22, 36, 42, 255} {
+			blob := string([]byte{byte(b)}) + "\r\n" + strings.Repeat("x", l) + "\r\n0\r\n\r\n"
+			c23Check(t, rec, c23Case{Mode: "request", Blob: []byte(blob), Tail: true, Class: "sweep-nonhex-byte"})
+			blob = "1" + string([]byte{byte(b)}) + "\r\n" + strings.Repeat("x", 16+l) + "\r\n0\r\n\r\n"
+			c23Check(t, rec, c23Case{Mode: "response", Blob: []byte(blob), Tail: true, Class: "sweep-nonhex-byte"})
 		}
 	}
 	rapid.Check(t, func(rt *rapid.T) {
